@@ -17,8 +17,10 @@ CONSTANTS
   None = "None"
   MaxSeq = 2
   MaxStim <- MCMaxStim
+  Cats = {"conn", "flow", "odd", "gate"}
   MaxOdd = 2
   BugPtr = FALSE
   BugWait = FALSE
   BugListen = FALSE
+  Mut = ""
 CHECK_DEADLOCK FALSE
